@@ -89,13 +89,15 @@ theorem VoteSet.addVote_maj23 (c : Cfg) (vs : VoteSet) (v : Vote) (x : Bid)
     · exact h
     · split
       · exact h
-      · unfold VoteSet.addVerified
-        simp only []
-        have h1 : (vs.recordVote c v.val v.bid).maj23 = some x := by
-          unfold VoteSet.recordVote; repeat' split
-          all_goals exact h
-        repeat' split
-        all_goals first | exact h1 | exact VoteSet.finish_maj23 _ _ _ _ _ _ h1
+      · split
+        · exact h
+        · unfold VoteSet.addVerified
+          simp only []
+          have h1 : (vs.recordVote c v.val v.bid).maj23 = some x := by
+            unfold VoteSet.recordVote; repeat' split
+            all_goals exact h
+          repeat' split
+          all_goals first | exact h1 | exact VoteSet.finish_maj23 _ _ _ _ _ _ h1
 
 theorem VoteSet.setPeerMaj23_maj23 (vs : VoteSet) (peer : Peer) (key : Bid) :
     (vs.setPeerMaj23 peer key).maj23 = vs.maj23 := by
